@@ -68,8 +68,20 @@ fn gen(ctx: &GenCtx, i: u64) -> Option<Run> {
         let assertion = if x.has_assertion() && r.chance(1, 3) { Some(nonempty_text!(r, 8)) } else { None };
         let msg = ascii!(r, mlen);
         let jp = if !raw && r.chance(2, 3) { Some(json!({"data": msg.clone(), "sub": "s"})) } else { None };
-        let opts = IssueOpts { proto: x, layer, key, footer: footer.clone(), assertion, now, message: msg, json_payload: jp, extra_claims: vec![] };
-        let t = issue(&mut rb, &mut r, opts);
+        let opts = IssueOpts { proto: x, layer, key, footer: footer.clone(), assertion: assertion.clone(), now, message: msg, json_payload: jp, extra_claims: vec![] };
+        let t = if matches!(x, Proto::V3L | Proto::V4L) && !y.is_local() && (i / 56) % 2 == 0 {
+            // the nonce of v3/v4.local travels verbatim: with a printable (or JSON) nonce and a message of
+            // 32..=64+ bytes, the part of the body that a public protocol would take for the *message* is
+            // well-formed text, so nothing but the signature check stands between the relabelled token and Ok
+            let out = rb.msg();
+            let tail = y.tail_len();
+            let mlen = tail.saturating_sub(x.tail_len()) + *r.pick(&[0usize, 1, 8, 12, 20, 32]);
+            let nonce = printable(&mut r, 32);
+            rb.push(Op::CoreIssue { proto: x, key, nonce_hex: hex::encode(nonce), payload: ascii!(r, mlen), footer: footer.clone(), assertion: assertion.clone(), out, order: 0, rebuild: false });
+            TokenDesc { msg: out, proto: x, layer: Layer::Core, key, footer: footer.clone(), assertion: if x.has_assertion() { assertion.clone() } else { None }, issued_at: now, builder: None }
+        } else {
+            issue(&mut rb, &mut r, opts)
+        };
         let at = t.issued_at + r.range(1, HOUR - 2);
         // the token is first verified where it belongs (X): nothing learnt there may help it at Y
         let vx_layer = if t.layer == Layer::Core { Layer::Core } else { random_layer(&mut r) };
